@@ -574,8 +574,42 @@ class LowerToIRVisitor(Visitor.DefaultVisitor):
                 ctx.BasicBlock.AddInstruction(result)
                 return result
         elif left.Type.IsMatrix() and right.Type.IsVector():
-            # M <op> V, needs to get lowered to matrix-vector multiply
-            pass
+            # M * V: matrix-vector multiply
+            assert be.GetOperation() == op.Operation.MUL
+            mul = LinearIR.BinaryInstruction(
+                LinearIR.OpCode.MATRIX_MUL_VECTOR,
+                ctx.AdaptType(be.GetType()),
+                left,
+                right,
+            )
+            ctx.BasicBlock.AddInstruction(mul)
+            return mul
+        elif left.Type.IsScalar() and right.Type.IsMatrix():
+            # S * M, lowered row by row like M * S (the row operation takes
+            # care of the operand order)
+            rightType = right.Type
+            rightRowType = rightType.RowType
+
+            resultType = ctx.AdaptType(be.GetType())
+            resultRowType = resultType.RowType
+            rows = []
+            for row in range(rightType.RowCount):
+                rightRow = LinearIR.MatrixAccessInstruction(
+                    rightRowType,
+                    right,
+                    ctx.Function.CreateConstant(LinearIR.IntegerType(), row),
+                )
+                ctx.BasicBlock.AddInstruction(rightRow)
+
+                newRow = LinearIR.BinaryInstruction.FromOperation(
+                    be.GetOperation(), resultRowType, left, rightRow
+                )
+                ctx.BasicBlock.AddInstruction(newRow)
+                rows.append(newRow)
+
+            result = LinearIR.ConstructPrimitiveInstruction(resultType, rows)
+            ctx.BasicBlock.AddInstruction(result)
+            return result
         elif left.Type.IsMatrix() and right.Type.IsScalar():
             # M <op> S, needs to get lowered to vector-scalar multiply or
             # division
